@@ -413,6 +413,20 @@ def h_fsh(vm, st, name, argv, ins):
     return simp(z3.Extract(bits - 1, 0, z3.LShR(cat, S2)))
 
 
+def h_cmp3(vm, st, name, argv, ins):
+    m = re.match(r'@llvm\.([us])cmp\.i(\d+)\.i(\d+)', name)
+    sg, rb, bits = m.group(1), int(m.group(2)), int(m.group(3))
+    x, y = argv
+    M = (1 << rb) - 1
+    if isinstance(x, int) and isinstance(y, int):
+        if sg == 's':
+            x = signed(x, bits); y = signed(y, bits)
+        return (0 if x == y else (1 if x > y else M))
+    X = to_bv(x, bits); Y = to_bv(y, bits)
+    lt = z3.ULT(X, Y) if sg == 'u' else (X < Y)
+    return simp(z3.If(X == Y, z3.BitVecVal(0, rb), z3.If(lt, z3.BitVecVal(M, rb), z3.BitVecVal(1, rb))))
+
+
 def h_trap(vm, st, name, argv, ins):
     raise Terminal('abort', name)
 
@@ -612,6 +626,7 @@ def install(vm):
     add(lambda n: re.match(r'@llvm\.u(add|sub)\.sat\.i', n) is not None, h_sat)
     add(lambda n: re.match(r'@llvm\.(bitreverse|ctlz|cttz|bswap|ctpop|abs)\.i', n) is not None, h_bitop)
     add(lambda n: n.startswith('@llvm.fsh'), h_fsh)
+    add(lambda n: re.match(r'@llvm\.[us]cmp\.i', n) is not None, h_cmp3)
     add(lambda n: n.startswith(('@llvm.trap', '@llvm.ubsantrap', '@llvm.debugtrap')), h_trap)
     add(lambda n: n.startswith('@llvm.threadlocal.address') or n.startswith('@llvm.launder') or n.startswith('@llvm.strip'), h_identity0)
     add(lambda n: n.startswith('@llvm.is.constant'), h_is_constant)
